@@ -56,6 +56,7 @@ class GetOptions(Contract):
     relpath = "numpoly/option.py"
     func = "get_options"
     properties = ("C14",)
+    positional = ("defaults",)
 
     def cases(self):
         for label, dflag in (("current", False), ("defaults", True), ("symbolic_flag", None)):
